@@ -875,7 +875,8 @@ def main(replay=None):
 
     if replay:
         rp = json.load(open(replay))["replay"]
-        cases.append((rp.get("kind", "replay"), rp["ast"]))
+        if rp.get("ast") is not None:
+            cases.append((rp.get("kind", "replay"), rp["ast"]))
     else:
         cdir = os.path.join(V.VERIF, "corpus", PID)
         if os.path.isdir(cdir):
@@ -993,6 +994,74 @@ def main(replay=None):
                 rep["impl_" + part] = d["i_" + part]
                 run.violation("implementation and model disagree on the %s (scoping rules satisfied on this program)" % part, rep, found_input=False)
                 break
+    # 3. the namespaces are interchangeable: the property speaks of "the namespace selected by with-do", not of two particular ones.  The
+    #    programs that name uiNamespace are run again with parsingNamespace / profileNamespace in its place (missionNamespace stays: it is
+    #    the default), and fixed programs read the selected namespace back through currentNamespace.  Implementation only: markers,
+    #    diagnostics and value must be the same as with uiNamespace, which the rules above have already judged.
+    nsym = 0
+    if replay and rp.get("ast") is None:
+        # replay of a case of this family
+        if "expected_markers" in rp:
+            rc_, iout, err_ = V.run_lines_parallel([himpl], ["0;0;10000\t%s" % M.hexs(rp["text"])], timeout=600)
+            f = iout[0].split("\t"); got = f[2] if len(f) == 3 else iout[0]
+            if re.findall(r"M<[^>]*>", got)[:2] != rp["expected_markers"]:
+                run.violation("scoping rules violated: with-do / currentNamespace / getVariable / setVariable do not name the same storage", dict(rp, impl_final=got))
+        else:
+            x = [k[5:] for k in rp if k.startswith("with_") and k != "with_uiNamespace"][0]
+            il = ["0;0;10000\t%s" % M.hexs(t) for t in (rp["text"], rp["text"].replace(x, "uiNamespace"))]
+            rc_, iout, err_ = V.run_lines_parallel([himpl], il, timeout=600)
+            fin = [(io.split("\t")[2] if len(io.split("\t")) == 3 else io) for io in iout]
+            if fin[0] != fin[1]:
+                run.violation("scoping rules violated: the program behaves differently when %s stands where uiNamespace stood" % x, dict(rp, **{"with_uiNamespace": fin[1], "with_" + x: fin[0]}))
+        nsym = 1
+    elif not replay:
+        base = [(kind, d) for (kind, ast), d in zip(cases, res) if d.get("text") and "uiNamespace" in d["text"] and "i_final" in d and not kind.startswith("execvm")]
+        if len(base) > (4000 if thorough else 500):
+            base = rng.sample(base, 4000 if thorough else 500)
+        others = ["parsingNamespace", "profileNamespace"]
+        vt, vmeta = [], []
+        for n_, (kind, d) in enumerate(base):
+            for x in (others if thorough else [others[n_ % 2]]):
+                vt.append(d["text"].replace("uiNamespace", x)); vmeta.append((kind, d, x))
+        # every namespace selected by with-do is the one currentNamespace names, and no other namespace sees the write
+        ALLNS = ["missionNamespace", "uiNamespace", "parsingNamespace", "profileNamespace"]
+        fixed = []
+        for a in ALLNS:
+            v = rng.randint(10, 99)
+            rest = [b for b in ALLNS if b != a]
+            t = ('with %s do { gq = %d; diag_log [currentNamespace getVariable "gq", %s getVariable "Gq", %s] }; '
+                 'diag_log [currentNamespace getVariable ["gq", -2], gq]; 0'
+                 % (a, v, a, ", ".join('%s getVariable ["gQ", -1]' % b for b in rest)))
+            outer = [str(v), str(v)] if a == "missionNamespace" else ["-2", ""]
+            fixed.append((t, "M<[%d,%d,-1,-1,-1]>" % (v, v), "M<[%s]>" % ",".join(outer)))
+            for b in rest:
+                w = rng.randint(100, 199)
+                t2 = ('with %s do { with %s do { gq = %d }; currentNamespace setVariable ["gr", %d]; diag_log [gq, gr] }; '
+                      'diag_log [%s getVariable ["gq", -1], %s getVariable ["gr", -1], %s getVariable ["gq", -1], %s getVariable ["gr", -1]]; 0'
+                      % (a, b, v, w, a, a, b, b))
+                # inside `with a`: gq was written to b, gr to a
+                fixed.append((t2, "M<[,%d]>" % w, "M<[-1,%d,%d,-1]>" % (w, v)))
+        il = ["0;0;10000\t%s" % M.hexs(t) for t in vt + [f[0] for f in fixed]]
+        rc_, iout, err_ = V.run_lines_parallel([himpl], il, timeout=3000)
+        for (kind, d, x), io in zip(vmeta, iout):
+            f = io.split("\t")
+            got = f[2] if len(f) == 3 else io
+            nsym += 1
+            if got != d["i_final"]:
+                run.violation("scoping rules violated: the program behaves differently when %s stands where uiNamespace stood (every namespace is "
+                              "selected by with-do and read / written by getVariable / setVariable in the same way)" % x,
+                              {"kind": "namespace-symmetry:" + kind, "text": d["text"].replace("uiNamespace", x), "with_uiNamespace": d["i_final"],
+                               "with_" + x: got, "ast": None})
+        for (t, m1, m2), io in zip(fixed, iout[len(vt):]):
+            f = io.split("\t")
+            got = f[2] if len(f) == 3 else io
+            marks = re.findall(r"M<[^>]*>", got)
+            nsym += 1
+            if marks[:2] != [m1, m2] or len(marks) != 3:
+                run.violation("scoping rules violated: with-do / currentNamespace / getVariable / setVariable do not name the same storage: expected the markers %s %s" % (m1, m2),
+                              {"kind": "namespace-fixed", "text": t, "impl_final": got, "expected_markers": [m1, m2], "ast": None})
+    run.cov["namespace_symmetry_cases"] = nsym
+
     for p in problems:
         run.violation("proof obligation not discharged: " + p, {"broken": p, "theorems": run.cov["theorems"]}, found_input=False)
 
